@@ -78,6 +78,7 @@ func jstr(s string) string {
 // Fwd describes a forwarding in harness notation.
 type Fwd struct {
 	Kind string // "cctp" | "hyp" | "internal"
+	Tag  string `json:",omitempty"` // display name override
 	// cctp
 	Domain uint32
 	MintRecipient, Caller []byte
@@ -92,6 +93,9 @@ type Fwd struct {
 }
 
 func (f Fwd) String() string {
+	if f.Tag != "" {
+		return f.Tag
+	}
 	switch f.Kind {
 	case "cctp":
 		c := ""
@@ -100,7 +104,7 @@ func (f Fwd) String() string {
 		}
 		return fmt.Sprintf("cctp(%d%s)", f.Domain, c)
 	case "hyp":
-		return fmt.Sprintf("hyp(%d,tok=%x..,fee=%s)", f.Domain, f.Token[:min(2, len(f.Token))], f.MaxFee)
+		return fmt.Sprintf("hyp(%d)", f.Domain)
 	default:
 		return fmt.Sprintf("internal(%s)", shortAddr(f.To))
 	}
@@ -254,6 +258,6 @@ func (w *World) FwdHyp(domain uint32) Fwd {
 	return Fwd{Kind: "hyp", Domain: domain, Token: w.TokenT0.Bytes(), Recipient: b32(5), GasLimit: "0", MaxFee: "0uusdc"}
 }
 func (w *World) FwdHypIGP(maxFee string) Fwd {
-	return Fwd{Kind: "hyp", Domain: 1, Token: w.TokenT1.Bytes(), Recipient: b32(5), GasLimit: "0", MaxFee: maxFee}
+	return Fwd{Kind: "hyp", Tag: "hypIGP(maxfee=" + maxFee + ")", Domain: 1, Token: w.TokenT1.Bytes(), Recipient: b32(5), GasLimit: "0", MaxFee: maxFee}
 }
 func (w *World) FwdInternal(to sdk.AccAddress) Fwd { return Fwd{Kind: "internal", To: to.String()} }
